@@ -9,11 +9,11 @@ import OAP.Gen.Facts
 namespace OAP.C07
 open OAP OAP.Waiters
 
-/-- T2 structure facts, regenerated from go/client on every run (the operations themselves, in source order): `Do` registers its receiver BEFORE handing the request to the transport and waits afterwards (unregister is deferred); the dispatcher's hand-off is a non-blocking send; the wait is a select with a deadline branch -/
+/-- T2 structure facts, regenerated from go/client on every run (the operations themselves, in source order): `Do` registers its receiver BEFORE handing the request to the transport and waits afterwards (unregister is deferred); the dispatcher's hand-off is a non-blocking send; the wait is a select with a deadline branch and a client-closed branch; the latter looks into the slot once more before it gives up (model: `wake` when the slot is full, `giveUp` otherwise — a response dispatched before the user's Close is still returned; D24) -/
 theorem source_order :
     Gen.seq_client_Do = ["c.RLock", "defer:c.RUnlock", "protocol.NewRequest", "c.register", "defer:c.unregister", "conn.Write", "c.recv"] ∧
     Gen.seq_client_handleResponse = ["c.recvsMu.RLock", "defer:c.recvsMu.RUnlock", "select", "send:w.ch", "default"] ∧
-    Gen.seq_client_recv = ["select", "recv:w.ch", "recv:ctx.Done()"] := by
+    Gen.seq_client_recv = ["select", "recv:w.ch", "recv:ctx.Done()", "recv:c.closeCh", "select", "recv:w.ch", "default"] := by
   decide
 
 
